@@ -283,7 +283,14 @@ pub fn text_has_date_triple(text: &str) -> bool {
             if c == '-' {
                 v = -v;
             }
-            toks.push(K::Num(v));
+            // a literal with a fraction is never a day, month or year (default convention: ','
+            // decimal, '.' grouping); anything else that does not parse stays conservative
+            let whole: String = cs[start..j].iter().collect();
+            let canon = whole.replace('.', "").replace(',', ".");
+            match canon.parse::<f64>() {
+                Ok(f) if f.fract() != 0.0 => toks.push(K::Other),
+                _ => toks.push(K::Num(v)),
+            }
             i = j;
         } else if c == '/' {
             toks.push(K::Slash);
@@ -340,6 +347,11 @@ pub fn has_date_triple(ts: &[Tok]) -> bool {
                 // the integer part only
                 let int_part: String = s.chars().take_while(|c| c.is_ascii_digit() || *c == '-' || *c == '+').collect();
                 let _ = t;
+                if let Ok(f) = s.replace('.', "").replace(',', ".").parse::<f64>() {
+                    if f.fract() != 0.0 {
+                        return None; // a fraction is never a day, month or year
+                    }
+                }
                 int_part.parse::<f64>().ok()
             };
             if let (Some(d), Some(m), Some(y)) = (num(&w[0].1), num(&w[2].1), num(&w[4].1)) {
